@@ -33,7 +33,7 @@ Params(e, i) == TLCGet(31)[e][i]
 
 (* every identification field carries its own number *)
 IdentQ == [master |-> 0, centre |-> 74, subcentre |-> 3, update |-> 6, category |-> 9, intlsub |-> 11, localsub |-> 12,
-           mversion |-> 33, lversion |-> 0, year |-> 2021, month |-> 8, day |-> 17, hour |-> 19, minute |-> 23, second |-> 29]
+           mversion |-> 33, lversion |-> 0, year |-> 2021, yoc |-> 21, month |-> 8, day |-> 17, hour |-> 19, minute |-> 23, second |-> 29]
 PoolQ(e, has2) == Message(e, IdentQ, IF has2 THEN <<<<170, 85>>>> ELSE <<>>, 1, TRUE, FALSE, <<1001, 2001>>, <<0, 0, 0, 0, 1, 0, 1, 1, 0>>)
 
 (* ---- reading a message with the definitions ------------------------------------ *)
@@ -139,7 +139,7 @@ LayoutsAgree ==
     /\ V(1, "originating_centre").v = <<IdentQ.centre>>
     /\ V(1, "master_table_version").v = <<IdentQ.mversion>>
     /\ V(1, "data_category").v = <<IdentQ.category>>
-    /\ V(1, "year").v = <<IF e = 4 THEN IdentQ.year ELSE IdentQ.year % 100>>
+    /\ V(1, "year").v = <<IF e = 4 THEN IdentQ.year ELSE IdentQ.yoc>>
     /\ V(1, "second").v = <<IdentQ.second>>
     /\ V(1, "is_section2_presents").v = <<IF has2 THEN 1 ELSE 0>>
     /\ V(3, "n_subsets").v = <<1>> /\ V(3, "unexpanded_descriptors").v = <<1001, 2001>>
